@@ -84,6 +84,10 @@ def shape(name, seed=0):
         A = full_input("A.txt", t3, l3, locs3, k=0, seed=seed, missing=miss)
         B = full_input("B.txt", t3, l3, locs3, k=1, seed=seed)
         return [A, B]
+    if name == "deterministic":
+        return [full_input(n, t3, l3, locs3, k=k, seed=seed, fields=("obs", "fcst"), missing=[("fcst", (0, 1, 1))]) for k, n in enumerate(("A.txt", "B.txt"))]
+    if name == "ensemble_only":
+        return [full_input(n, t3, l3, locs3, k=k, seed=seed, fields=("obs", "fcst", "e0", "e1", "e2"), missing=[("e1", (0, 1, 1))]) for k, n in enumerate(("A.txt", "B.txt"))]
     if name == "three_inputs":
         return shape("regular", seed) + [full_input("C.txt", t3, l3, locs3, k=2, seed=seed, missing=[("fcst", (2, 0, 1))])]
     if name == "one_input":
